@@ -170,10 +170,10 @@ example : asDirhtml [".txt".toList] = none := by decide
 from a local definition has priority -1, the canonical name, and its URI is the dirhtml URI of the
 defining page, followed by '#' and the html id registered for the definition unless the role is
 `std:doc`; `uri_base = uri`. -/
-theorem generated_points_to_anchor (key : List Char) (d : LocalDef) (e : Entry)
-    (h : generateEntry key d = some e) :
+theorem generated_points_to_anchor (P : PyRe) (key : List Char) (d : LocalDef) (e : Entry)
+    (h : generateEntry P key d = some e) :
     ∃ dir dom role nm, asDirhtml d.fileid = some dir ∧ splitKey key = some (dom, role, nm) ∧
-      e.name = d.canonical ∧ e.domain = dom ∧ e.role = role ∧ e.priority = -1 ∧ e.uri = e.uriBase ∧
+      e.name = normalizeWs P d.canonical ∧ e.domain = dom ∧ e.role = role ∧ e.priority = -1 ∧ e.uri = e.uriBase ∧
       e.uriBase = (if dom = sStd ∧ role = ['d', 'o', 'c'] then dir else dir ++ '#' :: d.htmlId) := by
   unfold generateEntry at h
   split at h
@@ -191,10 +191,10 @@ titles come from the source text and are not constrained by the generator). If n
 the html id contains whitespace — html ids never do, C09.html5id_no_space — the generated `uri_base`
 contains none ('/' and '#' are not whitespace: checked on the running Python). -/
 theorem generated_entries_wf_partial (P : PyRe) (hslash : P.isSpace '/' = false) (hhash : P.isSpace '#' = false)
-    (key : List Char) (d : LocalDef) (e : Entry) (h : generateEntry key d = some e)
+    (key : List Char) (d : LocalDef) (e : Entry) (h : generateEntry P key d = some e)
     (hf : ∀ p ∈ d.fileid, ∀ c ∈ p, P.isSpace c = false) (hid : ∀ c ∈ d.htmlId, P.isSpace c = false) :
     ∀ c ∈ e.uriBase, nonSpace P c = true := by
-  obtain ⟨dir, dom, role, nm, hdir, _, _, _, _, _, _, hub⟩ := generated_points_to_anchor key d e h
+  obtain ⟨dir, dom, role, nm, hdir, _, _, _, _, _, _, hub⟩ := generated_points_to_anchor P key d e h
   have hdirc : ∀ c ∈ dir, P.isSpace c = false := by
     intro c hc
     rcases mem_asDirhtml hdir hc with hc | ⟨p, hp, hcp⟩
@@ -212,10 +212,114 @@ theorem generated_entries_wf_partial (P : PyRe) (hslash : P.isSpace '/' = false)
         · exact hid c hc
   simp [nonSpace, this]
 
-example : generateEntry "std:label:a b".toList
+example : generateEntry asciiRe "std:label:a b".toList
     { canonical := "a b".toList, fileid := ["ref".toList, "p.txt".toList], title := "T".toList, htmlId := "std-label-a-b".toList }
     = some { name := "a b".toList, domain := "std".toList, role := "label".toList, priority := -1,
              uriBase := "ref/p/#std-label-a-b".toList, uri := "ref/p/#std-label-a-b".toList, display := some "T".toList } := by
   decide
+
+/-! ### exported names are whitespace-normalised -/
+
+theorem normalizeAux_no_ws_run (P : PyRe) (hsp : P.isSpace ' ' = true) : ∀ (l : List Char) (inWs : Bool) (pre : List Char) (a b : Char)
+    (post : List Char), normalizeAux P inWs l = pre ++ a :: b :: post → ¬ (P.isSpace a = true ∧ P.isSpace b = true) := by
+  -- stronger statement carried through the induction: after a blank has been written (`inWs`), the output does not start with one
+  have key : ∀ (l : List Char) (inWs : Bool),
+      (inWs = true → ∀ c r, normalizeAux P inWs l = c :: r → P.isSpace c = false) ∧
+      (∀ (pre : List Char) (a b : Char) (post : List Char), normalizeAux P inWs l = pre ++ a :: b :: post →
+        ¬ (P.isSpace a = true ∧ P.isSpace b = true)) := by
+    intro l
+    induction l with
+    | nil => intro inWs; exact ⟨by intro _ c r h; simp [normalizeAux] at h, by intro pre a b post h; simp [normalizeAux] at h⟩
+    | cons c cs ih =>
+      intro inWs
+      by_cases hc : P.isSpace c = true
+      · cases inWs with
+        | true =>
+          have hE : normalizeAux P true (c :: cs) = normalizeAux P true cs := by simp [normalizeAux, hc]
+          rw [hE]; exact ih true
+        | false =>
+          have hE : normalizeAux P false (c :: cs) = ' ' :: normalizeAux P true cs := by simp [normalizeAux, hc]
+          rw [hE]
+          refine ⟨fun h => (by cases h), ?_⟩
+          intro pre a b post h
+          cases pre with
+          | nil =>
+            simp only [List.nil_append, List.cons.injEq] at h
+            obtain ⟨rfl, h2⟩ := h
+            have := (ih true).1 rfl b post h2
+            intro hh; rw [this] at hh; exact absurd hh.2 (by simp)
+          | cons p pre' =>
+            simp only [List.cons_append, List.cons.injEq] at h
+            exact (ih true).2 pre' a b post h.2
+      · have hcf : P.isSpace c = false := by simpa using hc
+        have hE : normalizeAux P inWs (c :: cs) = c :: normalizeAux P false cs := by simp [normalizeAux, hcf]
+        rw [hE]
+        refine ⟨by intro _ c' r h; simp only [List.cons.injEq] at h; rw [← h.1]; exact hcf, ?_⟩
+        intro pre a b post h
+        cases pre with
+        | nil =>
+          simp only [List.nil_append, List.cons.injEq] at h
+          obtain ⟨rfl, _⟩ := h
+          intro hh; rw [hcf] at hh; exact absurd hh.1 (by simp)
+        | cons p pre' =>
+          simp only [List.cons_append, List.cons.injEq] at h
+          exact (ih false).2 pre' a b post h.2
+  intro l inWs pre a b post h
+  exact (key l inWs).2 pre a b post h
+
+theorem normalizeAux_mem (P : PyRe) : ∀ (l : List Char) (inWs : Bool) (c : Char), c ∈ normalizeAux P inWs l →
+    c = ' ' ∨ (c ∈ l ∧ P.isSpace c = false) := by
+  intro l
+  induction l with
+  | nil => intro inWs c h; simp [normalizeAux] at h
+  | cons x xs ih =>
+    intro inWs c h
+    by_cases hx : P.isSpace x = true
+    · cases inWs with
+      | true =>
+        have hE : normalizeAux P true (x :: xs) = normalizeAux P true xs := by simp [normalizeAux, hx]
+        rw [hE] at h
+        rcases ih true c h with h | ⟨h1, h2⟩
+        · exact Or.inl h
+        · exact Or.inr ⟨List.mem_cons_of_mem _ h1, h2⟩
+      | false =>
+        have hE : normalizeAux P false (x :: xs) = ' ' :: normalizeAux P true xs := by simp [normalizeAux, hx]
+        rw [hE] at h
+        rcases List.mem_cons.1 h with h | h
+        · exact Or.inl h
+        · rcases ih true c h with h | ⟨h1, h2⟩
+          · exact Or.inl h
+          · exact Or.inr ⟨List.mem_cons_of_mem _ h1, h2⟩
+    · have hxf : P.isSpace x = false := by simpa using hx
+      have hE : normalizeAux P inWs (x :: xs) = x :: normalizeAux P false xs := by simp [normalizeAux, hxf]
+      rw [hE] at h
+      rcases List.mem_cons.1 h with h | h
+      · exact Or.inr ⟨by rw [h]; exact List.mem_cons_self, by rw [h]; exact hxf⟩
+      · rcases ih false c h with h | ⟨h1, h2⟩
+        · exact Or.inl h
+        · exact Or.inr ⟨List.mem_cons_of_mem _ h1, h2⟩
+
+/-- **Exported names fit the line format.** The name `generate_inventory` writes for a definition - whatever the author
+put into the directive argument, glossary term or label, including line breaks and runs of blanks - holds no newline and no two
+adjacent whitespace characters: it is the whitespace-normalised canonical name, the form under which the defining project
+keeps its own keys and under which every consumer looks names up. -/
+theorem generated_name_normalised (P : PyRe) (hok : PyReOk P) (key : List Char) (d : LocalDef) (e : Entry)
+    (h : generateEntry P key d = some e) :
+    e.name = normalizeWs P d.canonical ∧ '\n' ∉ e.name ∧
+    ∀ pre a b post, e.name = pre ++ a :: b :: post → ¬ (P.isSpace a = true ∧ P.isSpace b = true) := by
+  obtain ⟨_, _, _, _, _, _, hn, _⟩ := generated_points_to_anchor P key d e h
+  refine ⟨hn, ?_, ?_⟩
+  · intro hm
+    rw [hn] at hm
+    rcases normalizeAux_mem P d.canonical false '\n' hm with h1 | ⟨_, h2⟩
+    · cases h1
+    · rw [hok.sp_nl] at h2; cases h2
+  · intro pre a b post he
+    rw [hn] at he
+    exact normalizeAux_no_ws_run P hok.sp_space d.canonical false pre a b post he
+
+example : (generateEntry asciiRe "mongodb:data:foo bar".toList
+    { canonical := "foo\n   bar".toList, fileid := ["p.txt".toList], title := [], htmlId := "x".toList }).map (·.name)
+    = some "foo bar".toList := by decide
 
 end SnootyVerif.C15
